@@ -71,6 +71,12 @@ claims.update({
    'Not decided: mutual exclusion over histories with expiry (Redis time), uniqueness of random ids (probabilistic).',
    'DESIGN.md 3.C19'),
 })
+claims.update({
+ 'C09': ('other', 'registration gates + method decision table, never-replace rule of the route tree, cleaning symmetry by value flow, literal/variable routing tables, bind-after-success path rule of the search, dispatch path table of ServeHTTP/methodsAllowed',
+   'Handle rejects invalid methods (exactly the 7 standard ones valid) and unrooted paths before touching a tree; the tree stores an item only in an empty slot, never replaces an existing child, descends into the found-or-created child; the same path.Clean result is registered, searched and used for the 405 computation; colon segments go to the variable map, others to the literal map, literal map visited first; match tables; a variable is bound only after the search below succeeded, a leaf matches only with an item; ServeHTTP runs the found handler once with bound variables, else 404 iff no other method matches, else 405 with Allow (other matching methods only) set before the status.',
+   'Not decided: correctness of matching/backtracking for all route sets x paths (needs a reference matcher, a dynamic technique).',
+   'DESIGN.md 3.C09'),
+})
 not_built_reason = 'static rules designed (DESIGN.md section 3) but not built yet in this revision'
 
 checks, na = [], []
